@@ -105,3 +105,30 @@ def check_registers(acc, kind, sub, regs_get, ifm_bits, ifm_depth, ofm_hw=None):
         if lut_start - ab_start < need["acc_banks"]:
             tags.append("accumulator partition [%d,%d) smaller than %d banks" % (ab_start, lut_start, need["acc_banks"]))
     return tags
+
+
+def usage_end_bank(acc, kind, sub, regs_get, ifm_bits, ifm_depth, ofm_hw=None):
+    """first bank NOT touched by the operation's IFM buffers / accumulators (from the programmed partition starts and the minimum
+    partition sizes of `required`)."""
+    a = isa.ACCELERATORS[acc]
+    uw, uh, ud = a["ofm_ublock"]
+    bh, bw, bd = regs_get("OFM_BLK_HEIGHT_M1") + 1, regs_get("OFM_BLK_WIDTH_M1") + 1, regs_get("OFM_BLK_DEPTH_M1") + 1
+    accf = regs_get("ACC_FORMAT")
+    acc_bits = {0: 32, 1: 40, 2: 16}.get(accf, 32)
+    ks = regs_get("KERNEL_STRIDE")
+    sx = ((ks & 1) | (((ks >> 6) & 7) << 1)) + 1
+    sy = (((ks >> 1) & 1) | (((ks >> 9) & 7) << 1)) + 1
+    dkh, dkw = regs_get("KERNEL_HEIGHT_M1") + 1, regs_get("KERNEL_WIDTH_M1") + 1
+    k = "reduce_sum" if (kind == "pool" and sub == "REDUCE_SUM") else kind
+    if k == "elementwise":
+        dkh = dkw = sx = sy = 1
+    eff_bh = bh
+    if ofm_hw is not None and ofm_hw[0] == 1 and dkh == 1 and uh == 2 and k != "elementwise":
+        eff_bh = 1
+    need = required(acc, k, ifm_bits, (eff_bh, bw, bd), ifm_depth, dkh, dkw, sy, sx, regs_get("IFM_UPSCALE"), bool(ks & 4), acc_bits)
+    if k == "elementwise":
+        binary_full = sub not in ("LRELU", "ABS", "CLZ") and not (regs_get("IFM2_BROADCAST") & 0x80)
+        if binary_full:
+            return regs_get("IFM2_IB_START") + need["ifm_banks"]
+        return 2 + need["ifm_banks"]
+    return regs_get("AB_START") + need["acc_banks"]
